@@ -9,6 +9,9 @@ job kinds
   sym   : model at p / (ns) and at the exchanged p' / permuted ns, at two values of Integration.timescale_factor
           -> relative differences between fs and the transposed fs'
   mscore: call the ms-command helper -> type / raises
+  concrete: run one model WITHOUT extrapolation, func(params, ns, pts), with Integration.timescale_factor set to the job's
+          'tf' -> the spectrum's data (C order), its mask, the grid Numerics.default_grid(pts) and use_delj_trick
+          (compared inside Coq with Model/ProgSem.run_prog on the program translated from the current source)
 """
 import sys, json, warnings, importlib, time
 warnings.filterwarnings('ignore')
@@ -145,13 +148,37 @@ def run_mscore(j):
         rec['error'] = type(e).__name__ + ': ' + str(e)[:200]
     return rec
 
+def run_concrete(j):
+    f = get(j['file'], j['name'])
+    rec = {}
+    try:
+        Integration.timescale_factor = j['tf']
+        fs = f(list(j['params']), list(j['ns']), j['pts'])
+    except Exception as e:
+        rec['error'] = type(e).__name__ + ': ' + str(e)[:200]
+        return rec
+    finally:
+        Integration.timescale_factor = TF0
+    arr = np.asarray(getattr(fs, 'data', fs), dtype=float)
+    mask = np.ma.getmaskarray(fs) if isinstance(fs, np.ma.MaskedArray) else np.zeros(arr.shape, bool)
+    rec['shape'] = list(arr.shape)
+    rec['mask'] = [bool(x) for x in mask.ravel()]
+    rec['finite'] = bool(np.all(np.isfinite(arr[~mask])))
+    # masked entries may hold anything (also non-finite values): they are never compared; send 0 in their place
+    rec['data'] = [0.0 if m else float(x) for x, m in zip(arr.ravel(), mask.ravel())] if rec['finite'] else []
+    rec['grid'] = [float(x) for x in dadi.Numerics.default_grid(j['pts'])]
+    rec['use_delj_trick'] = bool(Integration.use_delj_trick)
+    rec['use_old_timestep'] = bool(getattr(Integration, 'use_old_timestep', False))
+    rec['cuda'] = bool(getattr(Integration, 'cuda_enabled', False))
+    return rec
+
 def main():
     jobs = json.load(sys.stdin)
     out = []
     for j in jobs:
         t0 = time.time()
         try:
-            r = {'model': run_model, 'arity': run_arity, 'pair': run_pair, 'sym': run_sym, 'mscore': run_mscore}[j['kind']](j)
+            r = {'model': run_model, 'arity': run_arity, 'pair': run_pair, 'sym': run_sym, 'mscore': run_mscore, 'concrete': run_concrete}[j['kind']](j)
         except Exception as e:      # e.g. the function or its __param_names__ no longer exists
             r = {'error': 'driver: ' + type(e).__name__ + ': ' + str(e)[:200]}
         r['id'] = j['id']; r['secs_total'] = round(time.time() - t0, 3)
